@@ -1127,6 +1127,12 @@ func runL4(args []string) {
 		for _, w := range iterAfterClose() {
 			rep.addHolds("C14", Finding{Case: map[string]any{"directed": "closed Iterator touched while and after other retrievals of its Statement"}, Kind: "holds", Detail: w})
 		}
+		for _, w := range iterSameDest() {
+			rep.addHolds("C06", Finding{Case: map[string]any{"directed": "rows of one Iterator read into the same destination, embedded pointer replaced between rows"}, Kind: "holds", Detail: w})
+		}
+		for _, w := range cancelThenDrain() {
+			rep.addHolds("C14", Finding{Case: map[string]any{"directed": "context cancelled, Next called on at once"}, Kind: "holds", Detail: w})
+		}
 		for _, w := range cancelDuringFetch() {
 			rep.addHolds("C13", Finding{Case: map[string]any{"directed": "context cancelled inside the driver's fetch of row k, slow driver Close"}, Kind: "holds", Detail: w})
 		}
